@@ -43,6 +43,8 @@ type vcExp struct {
 	Delivered []string       `json:"delivered"`
 	Reports   []vcReportExp  `json:"reports"`
 	RawSeq    json.RawMessage `json:"seq"`
+	RawCopies json.RawMessage `json:"copies"`
+	Copies    map[string]int  `json:"-"`
 	Seq       map[string]int  `json:"-"`
 }
 
@@ -78,6 +80,42 @@ type vcReplayer struct {
 	hist  []vcStep
 	n     int
 	steps int
+	// successful transmissions of a bundle to a peer while the bundle has been in the store without interruption
+	okSent map[string]bool
+	late   bool
+}
+
+// copiesOf reads the spray-and-wait copy counter of the bundle called name.
+func (r *vcReplayer) copiesOf(name string) (int, bool) {
+	var data map[bpv7.BundleID]sprayMetaData
+	var mu *sync.RWMutex
+	switch a := r.w.c.routing.(type) {
+	case *SprayAndWait:
+		data, mu = a.bundleData, &a.dataMutex
+	case *BinarySpray:
+		data, mu = a.bundleData, &a.dataMutex
+	default:
+		return 0, false
+	}
+	mu.RLock()
+	defer mu.RUnlock()
+	ob := r.w.orig[name]
+	for id, md := range data {
+		oid := ob.ID()
+		if r.cfg.Cat[name].Origin == "app" {
+			oid.Timestamp[1] = id.Timestamp[1]
+		}
+		if id == oid {
+			// several submitted bundles may share source and time: tell them apart by the stored payload
+			if r.cfg.Cat[name].Tsg > 0 {
+				if _, _, seq, _ := r.w.lookup(name); uint64(seq) != id.Timestamp[1] {
+					continue
+				}
+			}
+			return int(md.remainingCopies), true
+		}
+	}
+	return 0, false
 }
 
 func (r *vcReplayer) viol(prop, key, desc string, extra vhRec) {
@@ -286,6 +324,15 @@ func (r *vcReplayer) run() string {
 		s := r.hist[n]
 		var err error
 		t0 := time.Now()
+		if !r.late {
+			// a short-lived bundle must not run out before the Advance action says so: under heavy load the behaviour is
+			// abandoned rather than judged (counted; too many of these make the run inconclusive)
+			for _, e := range w.shortExp {
+				if time.Until(e) < 300*time.Millisecond {
+					return "timing"
+				}
+			}
+		}
 		switch s.Act {
 		case "Submit":
 			r.accT[s.B] = [2]time.Time{t0, t0}
@@ -308,9 +355,17 @@ func (r *vcReplayer) run() string {
 		case "CleanTick":
 			w.c.store.DeleteExpired()
 		case "Advance":
-			if d := time.Until(w.base.Add(w.shortL + 150*time.Millisecond)); d > 0 {
-				time.Sleep(d)
+			for n, a := range r.cfg.Cat {
+				if a.Life == "short" {
+					w.build(n)
+				}
 			}
+			for _, e := range w.shortExp {
+				if d := time.Until(e.Add(150 * time.Millisecond)); d > 0 {
+					time.Sleep(d)
+				}
+			}
+			r.late = true
 		case "Restart":
 			err = w.restart()
 		case "Vector":
@@ -415,6 +470,37 @@ func (r *vcReplayer) run() string {
 				}
 			}
 		}
+		// --- C13, judged directly on the transmissions chosen by the algorithm
+		for _, sd := range sends {
+			a, isCat := r.cfg.Cat[sd.Name]
+			e := expSend[sd.Name+">"+sd.Peer]
+			if !isCat || (e != nil && e.Direct) || a.Dst == sd.Peer {
+				continue
+			}
+			if a.Prev == sd.Peer {
+				r.viol("C13", "select/sent-back-to-previous-node", fmt.Sprintf("bundle %s was offered to %s, the node it came from", sd.Name, sd.Peer), nil)
+				return "viol"
+			}
+			if r.okSent[sd.Name+">"+sd.Peer] {
+				r.viol("C13", "select/sent-twice", fmt.Sprintf("bundle %s was offered to %s again after a successful transmission while still stored", sd.Name, sd.Peer), nil)
+				return "viol"
+			}
+		}
+		for _, sd := range sends {
+			if sd.Ok {
+				r.okSent[sd.Name+">"+sd.Peer] = true
+			}
+		}
+		// --- C18: the algorithm's copy counter
+		if r.cfg.Algo == "spray" || r.cfg.Algo == "binary_spray" {
+			for name, want := range s.Exp.Copies {
+				got, has := r.copiesOf(name)
+				if !has || got != want {
+					r.viol("C18", "spray/copy-count", fmt.Sprintf("bundle %s: the node holds %d copies (known: %v), expected %d", name, got, has, want), nil)
+					return "viol"
+				}
+			}
+		}
 		// --- deliveries
 		var dl []string
 		for _, d := range delivered {
@@ -482,6 +568,15 @@ func (r *vcReplayer) run() string {
 					r.viol("C14", "id/stored-sequence-number", fmt.Sprintf("bundle %s is filed under sequence number %d, assigned %d", name, seq, want), nil)
 					return "viol"
 				}
+			}
+		}
+		inStore := map[string]bool{}
+		for _, n := range stored {
+			inStore[n] = true
+		}
+		for k := range r.okSent {
+			if !inStore[strings.SplitN(k, ">", 2)[0]] {
+				delete(r.okSent, k)
 			}
 		}
 		if vcSet(stored) != vcSet(s.Exp.Stored) {
@@ -579,6 +674,10 @@ func TestVerifCoreReplay(t *testing.T) {
 			if len(it.H[i].Exp.RawSeq) > 0 && it.H[i].Exp.RawSeq[0] == '{' {
 				_ = json.Unmarshal(it.H[i].Exp.RawSeq, &it.H[i].Exp.Seq)
 			}
+			it.H[i].Exp.Copies = map[string]int{}
+			if len(it.H[i].Exp.RawCopies) > 0 && it.H[i].Exp.RawCopies[0] == '{' {
+				_ = json.Unmarshal(it.H[i].Exp.RawCopies, &it.H[i].Exp.Copies)
+			}
 			it.H[i].Choices = map[string][][]string{}
 			if len(it.H[i].RawCh) > 0 && it.H[i].RawCh[0] == '{' {
 				_ = json.Unmarshal(it.H[i].RawCh, &it.H[i].Choices)
@@ -594,10 +693,12 @@ func TestVerifCoreReplay(t *testing.T) {
 		if err != nil {
 			vhEmit(vhRec{"k": "infra", "v": "NewCore: " + err.Error()})
 		} else {
-			for n := range cfg.Cat {
-				w.build(n)
+			for n, a := range cfg.Cat {
+				if a.Life != "short" {
+					w.build(n)
+				}
 			}
-			r := &vcReplayer{cfg: cfg, w: w, accT: map[string][2]time.Time{}, hist: it.H}
+			r := &vcReplayer{cfg: cfg, w: w, accT: map[string][2]time.Time{}, hist: it.H, okSent: map[string]bool{}}
 			status = r.run()
 			nsteps = r.steps
 			w.close()
